@@ -42,3 +42,6 @@ def run(ctx):
                       {"obligation": getattr(ctx, "broken_obligation", "?"), "log": ctx.proof_log[-3000:]},
                       found_input=False)
     return res
+
+
+MANIFEST["level"] = (MANIFEST["level"][0], MANIFEST["level"][1] + " On the live daemon: concurrent first-attempt decoders, undeliverable replies, and purge histories (credentials whose TTL exceeds the decoder's --max-ttl, decoded at chosen clock readings with the periodic purge fast-forwarded in between by harness/vtimer.c, compared with dec_process + CredHistory.r_purge and checked for a second success).", MANIFEST["level"][2])
